@@ -152,8 +152,22 @@ pub(crate) fn load_config(
 
     // Validate semantic correctness after loading
     validate_config_semantics(&result.config)?;
+    validate_checkers(&result.config)?;
 
     Ok(result)
+}
+
+/// Second half of the configuration gate: everything the checkers validate when they are built
+/// (structure limits, sibling rules, allow/deny lists, every glob and regex), so that every
+/// command rejects exactly the files `check` rejects.
+///
+/// # Errors
+/// Returns the first configuration error found.
+pub(crate) fn validate_checkers(config: &Config) -> crate::Result<()> {
+    ThresholdChecker::new(config.clone())?;
+    StructureChecker::new(&config.structure)?;
+    CheckContext::build_structure_scan_config_always(config, &config.scanner.exclude)?;
+    Ok(())
 }
 
 /// Resolves the project root directory.
@@ -469,7 +483,15 @@ impl CheckContext {
         if !config.structure.is_enabled() {
             return Ok(None);
         }
+        Self::build_structure_scan_config_always(config, exclude_patterns).map(Some)
+    }
 
+    /// Build `StructureScanConfig` whether or not structure checking is enabled (compiles every
+    /// pattern of the structure section).
+    fn build_structure_scan_config_always(
+        config: &Config,
+        exclude_patterns: &[String],
+    ) -> crate::Result<StructureScanConfig> {
         // Build allowlist rules from structure.rules
         let mut allowlist_rules = Vec::new();
         for rule in &config.structure.rules {
@@ -512,7 +534,7 @@ impl CheckContext {
             .global_deny_dirs(config.structure.deny_dirs.clone())
             .build()?;
 
-        Ok(Some(structure_scan_config))
+        Ok(structure_scan_config)
     }
 
     /// Create context with custom components (for testing).
